@@ -109,6 +109,19 @@ CHECKS.update({
         design="8 C13"),
 })
 
+CHECKS.update({
+    "C12": dict(
+        text="Contract proof per backend (3 SQL dialects, roundtrip, Django Q, SQLAlchemy ORM and Core) x node kind, including kinds without a "
+             "handler: the MRO-resolved visit returns a complete translation (text: well-formed, no placeholder; ORM: a constructor term "
+             "containing every child's translation, no None placeholder) or raises a library exception (Core: its documented "
+             "NotImplementedError); every attribute/index/arity/raise path of repository code is a safety obligation. Calls per function and arity.",
+        note="Calls into Django/SQLAlchemy are uninterpreted total constructors: exceptions raised inside them are out of reach; Django and "
+             "SQLAlchemy-ORM visit_CollectionLambda are not under contract (model-meta API in loops); attribute-but-not-field names on SQLAlchemy "
+             "models cannot be distinguished by the assumed getattr contract.",
+        technique="contracts on the real visitors (pyvc) with external calls as uninterpreted constructors; reader for text backends",
+        design="8 C12"),
+})
+
 NOT_APPLICABLE = {
     "C02": "the rows a Django QuerySet returns are decided by Django's SQL compiler and SQLite, not by any function in /repo; no contract on repo code can express it (DESIGN section 9)",
     "C03": "row semantics are decided by SQLAlchemy's compiler (operator rendering, contains escaping, boolean rendering) and SQLite (DESIGN section 9)",
